@@ -266,7 +266,7 @@ func main() {
 	mc.Main("C07", mc.Harness{
 		Name: "queue-bfs",
 		Explore: func(r *mc.Run) {
-			c := &cfg{MaxLen: mc.Pick(r, 24, 48), Roots: roots}
+			c := &cfg{MaxLen: mc.Pick(r, 72, 200), Roots: roots}
 			depth := 0
 			if !r.Hooks {
 				depth = mc.Pick(r, 9, 11)
